@@ -81,3 +81,341 @@ Proof.
   assert (E : (1 / 2 * (1 / 2) - 0 * 0) / (1 / 2 * 1 * 1) = / 2) by (field).
   rewrite E. split; [|reflexivity]. constructor; [|constructor]. apply Rinv_0_lt_compat. apply Rlt_0_2.
 Qed.
+
+(* ==================================================================================================
+   Extension: the PUBLIC functions beamspread_2d_for_path(ray_geometry) and
+   reverse_beamspread_2d_for_path(ray_geometry) as written (Model/BeamspreadPath.v): which
+   RayGeometry methods are called with which interface index, which velocities are indexed, the
+   first error in evaluation order; and the ray-tube theorems with every hypothesis read on the
+   INPUTS.  Proofs: Proofs/BeamspreadPathProofs.v (any numeric instance, axiom-free),
+   Proofs/BeamspreadPathRealProofs.v (reals), Proofs/BeamspreadPathExamples.v (set-ups).
+   Vocabulary: a RayGeometry object is (ifs, ray) as in C05 (Model/RayGeom.v); `vel` is
+   fermat_path.velocities; outcomes Val / NoLeg (None used as an array: AttributeError, TypeError) /
+   IndexErr / ValueErr; `path_legs` = [inc_leg_size(1..n)], `path_thetas` =
+   [conventional_inc_angle(1..n-1)] with n = numinterfaces - 1.
+   ================================================================================================== *)
+From Coq Require Import ZArith Lia Lra.
+From Arim Require Import Model.Vec3 Model.RayGeom Model.BeamspreadPath
+                         Proofs.BeamspreadPathProofs Proofs.BeamspreadPathRealProofs Proofs.BeamspreadPathExamples.
+
+(* ---- glue, for EVERY numeric instance (floats included) ---------------------------------------- *)
+(* the forward function on a RayGeometry with n >= 1 legs IS the list model fed with
+   inc_leg_size(1..n) and conventional_inc_angle(1..n-1) in this order, the velocities being
+   indexed [k-1], [k] at interface k *)
+Theorem beamspread_path_is_list_model : forall (T : Type) (N : Num T) (ifs : list (iface (T:=T))) ray vel n' legs thetas,
+  length ifs = S n' -> path_legs N ifs ray = Val legs -> path_thetas N ifs ray = Val thetas ->
+  (1 <= n')%nat -> (n' <= length vel)%nat ->
+  beamspread_2d_for_path N ifs ray vel = Val (beamspread N vel legs thetas).
+Proof.
+  intros T N ifs ray vel n' legs thetas H1 H2 H3 H4 H5.
+  exact (beamspread_path_factors N ifs ray vel n' H1 legs thetas H2 H3 H4 H5).
+Qed.
+
+(* the reverse function reads inc_leg_size(n), inc_leg_size(n-k), conventional_inc_angle(n-k),
+   velocities[n-k] / velocities[n-k-1]: the list model's accumulation on the REVERSED lists *)
+Theorem reverse_beamspread_path_is_list_model : forall (T : Type) (N : Num T) (ifs : list (iface (T:=T))) ray vel n' legs thetas,
+  length ifs = S n' -> path_legs N ifs ray = Val legs -> path_thetas N ifs ray = Val thetas ->
+  (1 <= n')%nat -> length vel = n' ->
+  reverse_beamspread_2d_for_path N ifs ray vel = Val (reverse_beamspread N vel legs thetas)
+  /\ reverse_beamspread N vel legs thetas
+     = ndiv N (n1 N) (nsqrt N (virtual_distance N (rev legs) (rev_gamma_list N (rev vel) (rev thetas)))).
+Proof.
+  intros T N ifs ray vel n' legs thetas H1 H2 H3 H4 H5.
+  exact (conj (reverse_beamspread_path_factors N ifs ray vel n' H1 legs thetas H2 H3 H4 H5) eq_refl).
+Qed.
+
+(* exactly when a value is returned (one velocity per leg, as RayGeometry.__init__ asserts):
+   at least two interfaces, every leg size and every interior conventional angle is a value *)
+Theorem beamspread_path_defined_iff : forall (T : Type) (N : Num T) (ifs : list (iface (T:=T))) ray vel n' x,
+  length ifs = S n' -> length vel = n' ->
+  (beamspread_2d_for_path N ifs ray vel = Val x <->
+   (1 <= n')%nat /\ exists legs thetas, path_legs N ifs ray = Val legs /\ path_thetas N ifs ray = Val thetas /\
+                                        x = beamspread N vel legs thetas).
+Proof. intros T N ifs ray vel n' x H1 H2. exact (fwd_defined_iff N ifs ray vel n' H1 x H2). Qed.
+
+Theorem reverse_beamspread_path_defined_iff : forall (T : Type) (N : Num T) (ifs : list (iface (T:=T))) ray vel n' x,
+  length ifs = S n' -> length vel = n' ->
+  (reverse_beamspread_2d_for_path N ifs ray vel = Val x <->
+   (1 <= n')%nat /\ exists legs thetas, path_legs N ifs ray = Val legs /\ path_thetas N ifs ray = Val thetas /\
+                                        x = reverse_beamspread N vel legs thetas).
+Proof. intros T N ifs ray vel n' x H1 H2. exact (rev_defined_iff N ifs ray vel n' H1 x H2). Qed.
+
+(* the two functions answer a value on exactly the same objects *)
+Theorem beamspread_defined_iff_reverse_defined : forall (T : Type) (N : Num T) (ifs : list (iface (T:=T))) ray vel n',
+  length ifs = S n' -> length vel = n' ->
+  ((exists x, beamspread_2d_for_path N ifs ray vel = Val x) <->
+   (exists y, reverse_beamspread_2d_for_path N ifs ray vel = Val y)).
+Proof. intros T N ifs ray vel n' H1 H2. exact (fwd_defined_iff_rev_defined N ifs ray vel n' H1 H2). Qed.
+
+(* "Case n=0: undefined" of the source: both functions raise; with one interface the kinds
+   differ (IndexError from inc_leg_size(1), AttributeError from inc_leg_size(0).copy()) *)
+Theorem degenerate_paths_raise : forall (T : Type) (N : Num T) ray vel,
+  (beamspread_2d_for_path N [] ray vel = IndexErr /\ reverse_beamspread_2d_for_path N [] ray vel = IndexErr) /\
+  (forall f : iface (T:=T),
+     beamspread_2d_for_path N [f] ray vel = IndexErr /\ reverse_beamspread_2d_for_path N [f] ray vel = NoLeg).
+Proof.
+  intros T N ray vel. split; [exact (no_interface N [] ray vel eq_refl)|].
+  intros f. exact (one_interface N [f] ray vel f eq_refl).
+Qed.
+
+(* a path with one leg: no velocity and no angle is read (even an empty velocity tuple works) *)
+Theorem single_leg_path_value : forall (T : Type) (N : Num T) (f0 f1 : iface (T:=T)) ray vel r,
+  inc_leg_size N [f0; f1] ray 1 = Val r ->
+  beamspread_2d_for_path N [f0; f1] ray vel = Val (ndiv N (n1 N) (nsqrt N r)) /\
+  reverse_beamspread_2d_for_path N [f0; f1] ray vel = Val (ndiv N (n1 N) (nsqrt N r)).
+Proof. exact @single_leg_path. Qed.
+
+(* ... and the list model with one leg is 1/sqrt(r) whatever velocities and angles it is given
+   (generalises beamspread_single_medium) *)
+Theorem single_leg_list_value : forall (T : Type) (N : Num T) vel r thetas,
+  beamspread N vel [r] thetas = ndiv N (n1 N) (nsqrt N r) /\
+  reverse_beamspread N vel [r] thetas = ndiv N (n1 N) (nsqrt N r).
+Proof. exact @single_leg_any_instance. Qed.
+
+(* the answers (values AND error kinds) depend on the RayGeometry only through the number of
+   interfaces, the leg sizes and the conventional incidence angles at interfaces 1 .. n-1 *)
+Theorem beamspread_path_reads_only_sizes_and_angles :
+  forall (T : Type) (N : Num T) (ifs ifs' : list (iface (T:=T))) ray ray' vel,
+  length ifs = length ifs' ->
+  (forall idx, inc_leg_size N ifs ray idx = inc_leg_size N ifs' ray' idx) ->
+  (forall k, (1 <= k <= n_of_path ifs - 1)%Z ->
+             conventional_inc_angle N ifs ray k = conventional_inc_angle N ifs' ray' k) ->
+  beamspread_2d_for_path N ifs ray vel = beamspread_2d_for_path N ifs' ray' vel /\
+  reverse_beamspread_2d_for_path N ifs ray vel = reverse_beamspread_2d_for_path N ifs' ray' vel.
+Proof. exact @path_congruence. Qed.
+
+(* the frames and the side flags of the FIRST and of the LAST interface, and the outgoing-side
+   flag of every interface, are never read: two objects with the same points everywhere and the
+   same frames / incoming-side flags at the interior interfaces get the same answers *)
+Theorem first_and_last_interface_frames_unread :
+  forall (T : Type) (N : Num T) (ifs ifs' : list (iface (T:=T))) ray vel,
+  same_for_beamspread ifs ifs' ->
+  beamspread_2d_for_path N ifs ray vel = beamspread_2d_for_path N ifs' ray vel /\
+  reverse_beamspread_2d_for_path N ifs ray vel = reverse_beamspread_2d_for_path N ifs' ray vel.
+Proof. intros T N ifs ifs' ray vel H. exact (first_last_unread N ifs ifs' ray H vel). Qed.
+
+(* ---- over the reals: hypotheses on the inputs ---------------------------------------------------- *)
+(* the code's gamma is positive exactly below the critical angle, negative beyond it *)
+Theorem gamma_positive_iff_subcritical : forall vi vo th, 0 < vi -> 0 < vo -> cos th <> 0 ->
+  (0 < gamma_of NumR vi vo th <-> -1 < vo / vi * sin th < 1) /\
+  (1 < (vo / vi * sin th) * (vo / vi * sin th) -> gamma_of NumR vi vo th < 0).
+Proof. intros vi vo th H1 H2 H3. exact (conj (gamma_pos_iff vi vo th H1 H2 H3) (gamma_neg_beyond vi vo th H1 H2 H3)). Qed.
+
+Theorem gammas_positive_iff_subcritical_everywhere : forall vel thetas,
+  all_pos vel -> Forall (fun th => cos th <> 0) thetas ->
+  (all_pos (gamma_list NumR vel thetas) <-> subcritical vel thetas).
+Proof.
+  intros vel thetas Hv Hc. split.
+  - exact (subcritical_of_gammas_pos vel thetas Hv Hc).
+  - exact (gammas_pos_of_subcritical vel thetas Hv Hc).
+Qed.
+
+(* beamspread = amplitude of the Snell ray tube = 1/sqrt(d), d > 0: positive velocities and leg
+   sizes, cosines non zero, Snell sine inside (-1, 1) at every interface — nothing about gammas *)
+Theorem beamspread_is_snell_tube_from_inputs : forall vel r1 rest thetas,
+  all_pos vel -> Forall (fun th => cos th <> 0) thetas -> subcritical vel thetas ->
+  0 < r1 -> all_pos rest -> (length rest <= Nat.min (length vel - 1) (length thetas))%nat ->
+  beamspread NumR vel (r1 :: rest) thetas = tube_amplitude NumR vel (r1 :: rest) thetas /\
+  beamspread NumR vel (r1 :: rest) thetas = 1 / sqrt (virtual_distance NumR (r1 :: rest) (gamma_list NumR vel thetas)) /\
+  0 < virtual_distance NumR (r1 :: rest) (gamma_list NumR vel thetas) /\
+  0 < beamspread NumR vel (r1 :: rest) thetas.
+Proof. exact beamspread_is_snell_tube_inputs. Qed.
+
+(* the same with the refracted ANGLE computed by Snell's law inside the specification:
+   beta_k = c_in cos^2(asin((c_out/c_in) sin th_k)) / (c_out cos^2 th_k) *)
+Theorem beamspread_is_tube_with_snell_angles : forall vel r1 rest thetas,
+  all_pos vel -> Forall (fun th => cos th <> 0) thetas -> subcritical vel thetas ->
+  0 < r1 -> all_pos rest -> (length rest <= Nat.min (length vel - 1) (length thetas))%nat ->
+  beamspread NumR vel (r1 :: rest) thetas = angle_tube_amplitude NumR vel (r1 :: rest) thetas.
+Proof. exact beamspread_is_angle_tube. Qed.
+
+(* Horner form of the virtual-source distance: d = r1 + (r2 + (r3 + ...)/g2)/g1 *)
+Theorem virtual_distance_is_horner : forall r1 rest gl,
+  Forall (fun g => g <> 0) gl -> (length rest <= length gl)%nat ->
+  virtual_distance NumR (r1 :: rest) gl = vd_horner NumR r1 rest gl.
+Proof. exact virtual_distance_horner. Qed.
+
+(* divergence never focuses below the critical angles: d >= r1, 0 < beamspread <= 1/sqrt(r1) *)
+Theorem beamspread_bounded_by_first_leg : forall vel r1 rest thetas,
+  all_pos vel -> Forall (fun th => cos th <> 0) thetas -> subcritical vel thetas ->
+  0 < r1 -> all_pos rest -> (length rest <= Nat.min (length vel - 1) (length thetas))%nat ->
+  r1 <= virtual_distance NumR (r1 :: rest) (gamma_list NumR vel thetas) /\
+  0 < beamspread NumR vel (r1 :: rest) thetas <= 1 / sqrt r1.
+Proof. exact beamspread_bounds. Qed.
+
+(* longer legs (same velocities and angles) never increase the beamspread *)
+Theorem beamspread_antitone_in_leg_sizes : forall vel r1 r1' rest rest' thetas,
+  all_pos vel -> Forall (fun th => cos th <> 0) thetas -> subcritical vel thetas ->
+  0 < r1 -> all_pos rest -> (length rest <= Nat.min (length vel - 1) (length thetas))%nat ->
+  r1 <= r1' -> Forall2 Rle rest rest' ->
+  beamspread NumR vel (r1' :: rest') thetas <= beamspread NumR vel (r1 :: rest) thetas.
+Proof. exact beamspread_antitone. Qed.
+
+(* normal incidence on every interface, any number of legs: d = (sum_k r_k v_{k-1}) / v_0 ;
+   the reverse function gives the same sum over the LAST velocity *)
+Theorem beamspread_normal_incidence : forall r1 rest v0 vel thetas,
+  Forall (fun v => v <> 0) (v0 :: vel) -> Forall (fun th => sin th = 0) thetas ->
+  (length rest <= length vel)%nat -> (length rest <= length thetas)%nat ->
+  beamspread NumR (v0 :: vel) (r1 :: rest) thetas = 1 / sqrt (dot_list NumR (r1 :: rest) (v0 :: vel) / v0).
+Proof. exact beamspread_normal. Qed.
+
+Theorem reverse_beamspread_normal_incidence : forall legs vel thetas vlast,
+  legs <> [] -> Forall (fun v => v <> 0) vel -> Forall (fun th => sin th = 0) thetas ->
+  length legs = length vel -> (length legs <= S (length thetas))%nat -> last vel 0 = vlast ->
+  reverse_beamspread NumR vel legs thetas = 1 / sqrt (dot_list NumR legs vel / vlast).
+Proof. exact reverse_beamspread_normal. Qed.
+
+(* only velocity RATIOS enter: a change of velocity unit changes neither function *)
+Theorem beamspread_velocity_unit_invariant : forall s vel legs thetas, s <> 0 -> Forall (fun v => v <> 0) vel ->
+  beamspread NumR (map (Rmult s) vel) legs thetas = beamspread NumR vel legs thetas /\
+  reverse_beamspread NumR (map (Rmult s) vel) legs thetas = reverse_beamspread NumR vel legs thetas.
+Proof. exact beamspread_vel_scale. Qed.
+
+(* no change of velocity along the path (skip paths without mode conversion), any angles:
+   every gamma is 1 and d is the unfolded length of the ray *)
+Theorem beamspread_without_velocity_change : forall v vel r1 rest thetas, v <> 0 ->
+  Forall (fun x => x = v) vel -> Forall (fun th => cos th <> 0) thetas ->
+  (length rest <= Nat.min (length vel - 1) (length thetas))%nat ->
+  beamspread NumR vel (r1 :: rest) thetas = 1 / sqrt (sum_list NumR (r1 :: rest)).
+Proof. exact beamspread_same_velocity. Qed.
+
+(* the last line np.reciprocal(np.sqrt(d)) in floating point: below the critical angles it is the
+   finite positive value of the theorems ... *)
+Theorem beamspread_float_outcome_regular : forall vel r1 rest thetas,
+  all_pos vel -> Forall (fun th => cos th <> 0) thetas -> subcritical vel thetas ->
+  0 < r1 -> all_pos rest -> (length rest <= Nat.min (length vel - 1) (length thetas))%nat ->
+  beamspread_outcome NumR vel (r1 :: rest) thetas = Finite (beamspread NumR vel (r1 :: rest) thetas).
+Proof. exact outcome_regular. Qed.
+
+(* ... beyond the critical angle (two legs) gamma < 0 and the result is nan only if the second leg
+   is longer than r1 |gamma|; for a shorter second leg the code returns a finite positive number
+   without any warning (outside the property's domain; recorded in the TIE note) *)
+Theorem beamspread_beyond_critical_two_legs : forall v0 v1 th r1 r2,
+  0 < v0 -> 0 < v1 -> cos th <> 0 -> 1 < (v1 / v0 * sin th) * (v1 / v0 * sin th) -> 0 < r1 -> 0 < r2 ->
+  let g := gamma_of NumR v0 v1 th in
+  g < 0 /\
+  (r1 * (- g) < r2 -> beamspread_outcome NumR [v0; v1] [r1; r2] [th] = NaN) /\
+  (r1 * (- g) = r2 -> beamspread_outcome NumR [v0; v1] [r1; r2] [th] = PlusInf) /\
+  (r2 < r1 * (- g) -> beamspread_outcome NumR [v0; v1] [r1; r2] [th] = Finite (1 / sqrt (r1 + r2 / g)) /\ 0 < r1 + r2 / g).
+Proof. exact two_leg_beyond_critical_outcome. Qed.
+
+(* the reverse function equals the forward function on the reversed ray whose incidence angles are
+   COMPUTED by Snell's law from the forward ones (C07's rev_beamspread_eq with its hypothesis
+   discharged for every sub-critical ray) ... *)
+Theorem reverse_is_forward_on_snell_reversed_ray : forall vel legs thetas,
+  all_pos vel -> subcritical vel thetas -> length thetas = (length vel - 1)%nat ->
+  reverse_beamspread NumR vel legs thetas
+  = beamspread NumR (rev vel) (rev legs) (reversed_inc_angles NumR (rev vel) (rev thetas)).
+Proof. exact reverse_is_forward_of_reversed_snell. Qed.
+
+(* ... hence it is the ray-tube amplitude of the reversed ray *)
+Theorem reverse_beamspread_is_snell_tube_of_reversed_ray : forall vel legs thetas,
+  all_pos vel -> all_pos legs -> legs <> [] -> Forall (fun th => cos th <> 0) thetas -> subcritical vel thetas ->
+  length thetas = (length vel - 1)%nat -> length legs = length vel ->
+  reverse_beamspread NumR vel legs thetas
+  = tube_amplitude NumR (rev vel) (rev legs) (reversed_inc_angles NumR (rev vel) (rev thetas)) /\
+  0 < reverse_beamspread NumR vel legs thetas.
+Proof. exact reverse_beamspread_is_tube_of_reversed_ray. Qed.
+
+(* ---- over the reals: the public functions -------------------------------------------------------- *)
+(* rigid motion of the whole set-up (every point p -> Q.p + t with Q orthogonal, every frame
+   B -> B.Q^T): both answers (values and error kinds) are unchanged *)
+Theorem beamspread_path_rigid_motion_invariant : forall Q t (ifs : list (iface (T:=R))) ray vel,
+  cols_orthonormal NumR Q ->
+  beamspread_2d_for_path NumR (map (move_iface NumR Q t) ifs) ray vel = beamspread_2d_for_path NumR ifs ray vel /\
+  reverse_beamspread_2d_for_path NumR (map (move_iface NumR Q t) ifs) ray vel
+  = reverse_beamspread_2d_for_path NumR ifs ray vel.
+Proof. intros Q t ifs ray vel HQ. exact (rigid_motion_invariance Q t HQ ifs ray vel). Qed.
+
+(* change of length unit on the POINTS (p -> s.p, s > 0): a value is returned exactly when one
+   was, and it is the old one divided by sqrt(s) — no hypothesis on angles or signs *)
+Theorem beamspread_path_length_unit_scaling : forall s (ifs : list (iface (T:=R))) ray vel n' y,
+  0 < s -> length ifs = S n' -> length vel = n' ->
+  (beamspread_2d_for_path NumR (map (scale_iface NumR s) ifs) ray vel = Val y <->
+   exists x, beamspread_2d_for_path NumR ifs ray vel = Val x /\ y = / sqrt s * x) /\
+  (reverse_beamspread_2d_for_path NumR (map (scale_iface NumR s) ifs) ray vel = Val y <->
+   exists x, reverse_beamspread_2d_for_path NumR ifs ray vel = Val x /\ y = / sqrt s * x).
+Proof. intros s ifs ray vel n' y Hs H1 H2. exact (length_unit_scaling s Hs ifs ray vel n' H1 H2 y). Qed.
+
+(* end to end: on a RayGeometry whose leg sizes are positive and whose interior incidence angles
+   are below grazing and below the critical angles, the public function returns the amplitude of
+   the Snell ray tube (both forms), the reverse function that of the reversed ray *)
+Theorem beamspread_path_is_ray_tube : forall (ifs : list (iface (T:=R))) ray vel n' legs thetas,
+  length ifs = S n' -> length vel = n' -> (1 <= n')%nat ->
+  path_legs NumR ifs ray = Val legs -> path_thetas NumR ifs ray = Val thetas ->
+  all_pos vel -> all_pos legs -> Forall (fun th => cos th <> 0) thetas -> subcritical vel thetas ->
+  beamspread_2d_for_path NumR ifs ray vel = Val (tube_amplitude NumR vel legs thetas) /\
+  beamspread_2d_for_path NumR ifs ray vel = Val (angle_tube_amplitude NumR vel legs thetas) /\
+  reverse_beamspread_2d_for_path NumR ifs ray vel
+  = Val (tube_amplitude NumR (rev vel) (rev legs) (reversed_inc_angles NumR (rev vel) (rev thetas))) /\
+  0 < tube_amplitude NumR vel legs thetas.
+Proof. exact path_beamspread_is_tube. Qed.
+
+(* ---- non-vacuity ------------------------------------------------------------------------------------ *)
+(* list level, oblique: velocities 1 -> 3/2, incidence 30 degrees (Snell sine 3/4), legs 1 and 2:
+   the hypotheses of beamspread_is_snell_tube_from_inputs, beamspread_is_tube_with_snell_angles,
+   beamspread_bounded_by_first_leg, beamspread_antitone_in_leg_sizes,
+   beamspread_float_outcome_regular, gammas_positive_iff_subcritical_everywhere,
+   reverse_is_forward_on_snell_reversed_ray, reverse_beamspread_is_snell_tube_of_reversed_ray *)
+Example oblique_ray_meets_hypotheses :
+  velA = [1; 3 / 2] /\ thetasA = [PI / 6] /\
+  all_pos velA /\ Forall (fun th => cos th <> 0) thetasA /\ subcritical velA thetasA /\
+  0 < 1 /\ all_pos [2] /\ (length [2] <= Nat.min (length velA - 1) (length thetasA))%nat /\
+  all_pos [1; 2] /\ [1; 2] <> [] /\ length thetasA = (length velA - 1)%nat /\ length [1; 2] = length velA /\
+  1 <= 1 /\ Forall2 Rle [2] [3].
+Proof.
+  destruct exampleA_regular as (H1 & H2 & H3). destruct exampleA_legs as (H4 & H5 & H6).
+  split; [reflexivity|]. split; [reflexivity|]. split; [exact H1|]. split; [exact H2|]. split; [exact H3|].
+  split; [exact H4|]. split; [exact H5|]. split; [exact H6|]. split; [repeat constructor; lra|].
+  split; [discriminate|]. split; [reflexivity|]. split; [reflexivity|]. split; [lra|]. repeat constructor; lra.
+Qed.
+
+(* beyond the critical angle: 1 -> 3, incidence 30 degrees (Snell sine 3/2), legs 1 and 1 *)
+Example beyond_critical_meets_hypotheses :
+  0 < 1 /\ 0 < 3 /\ cos (PI / 6) <> 0 /\ 1 < (3 / 1 * sin (PI / 6)) * (3 / 1 * sin (PI / 6)).
+Proof. repeat split; try lra; [exact cos_PI6_neq_0 | exact exampleC_beyond]. Qed.
+
+(* normal incidence, velocity unit, no velocity change: velocities [1; 2] resp. [2; 2], angle 0 *)
+Example normal_incidence_meets_hypotheses :
+  Forall (fun v => v <> 0) [1; 2] /\ Forall (fun th => sin th = 0) [0] /\ Forall (fun x => x = 2) [2; 2] /\
+  Forall (fun th => cos th <> 0) [0] /\ last [1; 2] 0 = 2 /\ [1; 1] <> [].
+Proof.
+  repeat split; try discriminate.
+  - repeat constructor; lra.
+  - constructor; [exact sin_0 | constructor].
+  - repeat constructor.
+  - constructor; [rewrite cos_0; lra | constructor].
+Qed.
+
+(* path level: three interfaces on the z axis (z = 0, 1, 3), identity frames, the wall's normal
+   on the far side of the incoming leg, velocities 1 and 2: the reads are values, the hypotheses of
+   beamspread_path_is_ray_tube / beamspread_path_is_list_model / *_defined_iff /
+   beamspread_path_length_unit_scaling hold, and the function returns 1/sqrt(5) *)
+Example path_example_meets_hypotheses :
+  length ifsR = 3%nat /\ length velR = 2%nat /\ (1 <= 2)%nat /\
+  path_legs NumR ifsR rayR = Val [1; 2] /\ path_thetas NumR ifsR rayR = Val [0] /\
+  all_pos velR /\ all_pos [1; 2] /\ Forall (fun th => cos th <> 0) [0] /\ subcritical velR [0] /\
+  beamspread_2d_for_path NumR ifsR rayR velR = Val (1 / sqrt 5).
+Proof.
+  destruct exampleR_reads as (H1 & H2 & H3 & H4). destruct exampleR_regular as (H5 & H6 & H7 & H8).
+  split; [exact H1|]. split; [exact H2|]. split; [lia|]. split; [exact H3|]. split; [exact H4|].
+  split; [exact H5|]. split; [exact H6|]. split; [exact H7|]. split; [exact H8|]. exact exampleR_value.
+Qed.
+
+(* a proper rotation (cos, sin = 3/5, 4/5 about z) meets the hypothesis of
+   beamspread_path_rigid_motion_invariant; same_for_beamspread is reflexive and relates set-ups
+   that differ at the first and last interface (run_E6 of Proofs/BeamspreadPathExamples.v) *)
+Example rotation_meets_hypothesis : cols_orthonormal NumR QR.
+Proof. exact QR_orthonormal. Qed.
+
+Example same_for_beamspread_example :
+  same_for_beamspread ifsR [mkIface [(0, 0, 0)] [QR] (Some true) (Some true); mkR (0, 0, 1) (Some false);
+                            mkIface [(0, 0, 3)] [QR] (Some false) (Some false)].
+Proof.
+  split; [reflexivity|]. intros a f f' Hf Hf'. unfold ifsR in Hf |- *. cbn [length].
+  destruct a as [|[|[|a]]]; cbn [nth_error] in Hf, Hf'.
+  - injection Hf as <-. injection Hf' as <-. split; [reflexivity|]. intros Ha. lia.
+  - injection Hf as <-. injection Hf' as <-. split; [reflexivity|]. intros _. split; reflexivity.
+  - injection Hf as <-. injection Hf' as <-. split; [reflexivity|]. intros Ha. lia.
+  - destruct a; discriminate.
+Qed.
